@@ -1473,6 +1473,20 @@ def r17_eq_fields(facts):
                 ("approx::relative_eq::RelativeEq", "relative_ne")):
             targets.append(b)
     c.floor("equality bodies (eq, abs_diff_eq, relative_eq)", len(targets), 3)
+    # the default tolerances of the approximate comparisons are the element type's own defaults, handed on unchanged
+    for b in facts.fns():
+        if b.get("impl_self") == ARRAY and (b.get("impl_trait_def") or "").startswith("approx::") and (b.get("name") or "").startswith("default_") and b.get("thir"):
+            tl = strip(facts.root(b))
+            while isinstance(tl, dict) and tl.get("k") == "Block" and not tl["stmts"] and tl.get("e") is not None:
+                tl = strip(tl["e"])
+            inst = "eq:%s" % b["name"]
+            where = "%s:%d" % (F.rel(b["file"]), b["sp"][0])
+            if isinstance(tl, dict) and tl.get("k") == "Call" and not tl.get("args") and (callee(tl) or "").rsplit("::", 1)[-1] == b["name"]:
+                c.ok(inst, where, "%s is the element type's %s" % (b["name"], b["name"]))
+            elif isinstance(tl, dict) and any(x.get("k") == "Call" and not x.get("args") and (callee(x) or "").rsplit("::", 1)[-1] == b["name"] for x in walk(tl)):
+                c.bad(inst, where, "%s transforms the element type's default (`%s`): arrays are then compared with another default tolerance than their elements" % (b["name"], show(tl)[:60]))
+            else:
+                c.unk(inst, where, "%s is not the element type's default in a form read here (`%s`)" % (b["name"], show(tl)[:60] if isinstance(tl, dict) else "?"))
     content = set()
     for b in accessor_bodies(facts):
         content |= body_fields_read(facts, b)
